@@ -18,13 +18,13 @@ Theorem C11_exit_is_final : forall ops s, p_quit s = true ->
 Proof. exact quit_run_from. Qed.
 Print Assumptions C11_exit_is_final.
 
-(* Flushing a run (held, application not past its inactivity time-out) empties its harvest: every tag
-   it held is in a final request or was an already reported package. *)
+(* Flushing a held run empties its harvest: every tag it held is in a final request or was an already
+   reported package -- also when the application is past its inactivity time-out (fix de635d6; before it the
+   statement needed the hypothesis "not inactive", and the code dropped the data of such an application). *)
 Theorem C11_flush_empties : forall outs s o ra,
   snd ra < length (p_ahs s) ->
-  inactive (get_obj s (ah_app (get_ah s (snd ra)))) (p_now s) = false ->
   harvest_tags (ah_h (get_ah (fst (flush_run outs (s, o) ra)) (snd ra))) = [].
-Proof. exact flush_run_empties. Qed.
+Proof. intros outs s o ra H. exact (flush_run_empties outs s o ra H eq_refl). Qed.
 Print Assumptions C11_flush_empties.
 
 (* ... and the flush conserves the data: whatever the final requests' outcomes, every tag held before
@@ -36,8 +36,8 @@ Print Assumptions C11_flush_conserves.
 
 From Verif Require Import ProcInv4 ProcInv7.
 
-(* The final flush is complete: in every reachable state, for EVERY entry (r -> a) of the run table whose
-   application is not past its inactivity time-out, the final requests made under run id r
+(* The final flush is complete: in every reachable state, for EVERY entry (r -> a) of the run table (whether or
+   not its application is past the inactivity time-out), the final requests made under run id r
    (`final_for r`: the requests of the flush's output with that run id) are harvest requests and carry
    exactly the data of a's harvest, minus the packages already reported for the application (`seen_part`),
    each unit with its multiplicity -- once, when tags are distinct -- whatever the outcomes of the final
@@ -46,11 +46,10 @@ From Verif Require Import ProcInv4 ProcInv7.
 Theorem C11_flush_complete : forall ops outs r a,
   let s := fst (run ops) in
   lookupN r (p_runs s) = Some a ->
-  inactive (get_obj s (ah_app (get_ah s a))) (p_now s) = false ->
   let mine := final_for r (snd (clean_exit s outs)) in
   (forall q, In q mine -> exists c, rq_kind q = RHarvest c) /\
   (forall t, cnt t (req_tags mine) + cnt t (seen_part s (ah_app (get_ah s a)) (ah_h (get_ah s a))) =
              cnt t (harvest_tags (ah_h (get_ah s a)))) /\
   harvest_tags (ah_h (get_ah (fst (clean_exit s outs)) a)) = [].
-Proof. exact flush_complete. Qed.
+Proof. intros ops outs r a s L. exact (flush_complete ops outs r a L eq_refl). Qed.
 Print Assumptions C11_flush_complete.
